@@ -1,5 +1,6 @@
 import Mochi.Model.Broker
 import Mochi.Lemmas.BrokerOrder
+import Mochi.Lemmas.BrokerOrderQos
 import Mochi.Lemmas.InflOrder
 /-!
 # C12 — Messages on one topic from one publisher arrive in publish order
@@ -24,6 +25,10 @@ makes that choice explicit (`nextSeed`, `resendSeed`) and the theorems quantify 
   `C12_history_order_of_first_tx`, `C12_per_op_single_copy`, `C12_routing_single_copy`,
   `C12_routing_immediate_any_qos`, `C12_qos0_stream_order`, and the demo `h12History` — the positive half of C12 for
   every history and everything outside F12.
+* History level, publishes of QoS 1 and 2 (end of the file; lemmas in `Lemmas/BrokerOrderQos.lean`, namespace `O12q`):
+  `C12_publish_qos1_op_outputs`, `C12_publish_qos2_op_outputs` (the op decomposed: acknowledgement, ONE routing call,
+  the publisher's own release tail), `C12_history_order_qos1_partial`, `C12_history_order_qos2_partial`, and the demos
+  `h12HistoryQ1`, `h12HistoryOwn` (the publisher receives its own messages), `h12HistoryQ2`.
 -/
 namespace Mochi.Broker
 open Mochi.Topics
@@ -118,7 +123,8 @@ open Mochi.Topics
 
     COVERED: deliveries whose copy is QoS 0 because the PUBLISH is QoS 0 — they are never deferred.
     NOT covered here (full statement: any `q₁ q₂`, copies of QoS > 0 that are immediate in the sense of `notDeferred`):
-    the op-level decomposition of the QoS 1/2 PUBLISH op is missing; what is proved for them is the routing call
+    for PUBLISH packets of QoS 1 and 2 see `C12_history_order_qos1_partial` / `C12_history_order_qos2_partial` below
+    (the op decomposed: `C12_publish_qos1_op_outputs`, `C12_publish_qos2_op_outputs`); also proved: the routing call
     (`C12_routing_immediate_any_qos`: the served connection is written its copy by the call itself) and the generic
     order theorem `C12_history_order_of_first_tx`, which applies to ANY two ops once "the op writes `c` exactly this
     PUBLISH" is known.  DEFERRED deliveries and RESENDS are out by F12 (`C12_deferred_release_counterexample`,
@@ -377,3 +383,326 @@ theorem C12_inflight_store_is_a_map (s : Store) (h : UniqueIds s) (r : Rec) (id 
 #print axioms C12_inflight_older_first
 #print axioms C12_inflight_getAll_sorted_perm
 #print axioms C12_next_immediate_is_oldest
+
+/-! ## History level, publishes of QoS 1 and QoS 2: the first transmission of an IMMEDIATE delivery is written by the publishing op
+
+Lemmas: `Mochi/Lemmas/BrokerOrderQos.lean` (namespace `O12q`).  `O12q.AcceptedQ1 s i id t` / `AcceptedQ2 s i id t`: the
+gates of the publish (live network client, valid non-empty topic, identifier ≠ 0, receive quota, write permission, no
+in-flight record under the identifier, no hook mode, the broker grants the QoS).  `O12q.RecvImm s pk c cid k pid`: the
+RECEIVER — client object `k`, registered under `cid`, live on connection `c`, holds a matching plain subscription of
+QoS ≥ 1, may read the topic, is not excluded by No Local, and its delivery is immediate: `notDeferred (getObj s k)`,
+fewer in-flight records than the limit, the packet identifier `pid` available.  `O12q.FirstTx m payload topic origin q`:
+`m` carries payload, topic and origin, `dup = false`, and `1 ≤ m.qos ≤ q`. -/
+namespace Mochi.Broker
+open Mochi.Topics
+
+/-- the field `notDef` of `O12q.RecvImm` is `notDeferred` -/
+theorem C12_recvImm_notDeferred {s : Server} {pk : Msg} {c : Nat} {cid : Str} {k pid : Nat}
+    (h : O12q.RecvImm s pk c cid k pid) : notDeferred (getObj s k) := h.notDef
+
+/-- **the QoS 1 PUBLISH op, decomposed.**  For an accepted QoS 1 publish (`O12q.AcceptedQ1`) on the connection of client
+    object `i` in a well-formed state, with `rs` the state with the retained store updated and `m = inboundMsg …`:
+    the op's output is `[PUBACK (reason QosCodes[1]) to the publisher] ++ (publishToSubscribers rs m).2 ++ tail`, `tail`
+    — at most two outputs — writing only to the PUBLISHER's own connection (releases of its own deferred messages);
+    hence every other connection `c` sees, as PUBLISH packets of the op, exactly those of the ONE routing call. -/
+theorem C12_publish_qos1_op_outputs (s : Server) (hw : WF s) (conn i : Nat) (dup retain : Bool) (id : Nat)
+    (topic payload : Str) (me : Nat) (hc : assocGet s.connOf conn = some i) (h : O12q.AcceptedQ1 s i id topic) :
+    (∃ tail, (step s (.recv conn (.publish 1 dup retain id topic payload me none))).2 =
+        [Out.wrote (getObj s i).conn (.ack (getObj s i).ver 4 id 1)] ++
+          (publishToSubscribers (retainedState s (inboundMsg s i 1 dup retain id topic payload me))
+            (inboundMsg s i 1 dup retain id topic payload me)).2 ++ tail ∧
+      tail.length ≤ 2 ∧ ∀ x ∈ tail, ∃ pk, x = Out.wrote (getObj s i).conn pk) ∧
+    ∀ c, (getObj s i).conn ≠ c →
+      O12.pubsTo c (step s (.recv conn (.publish 1 dup retain id topic payload me none))).2 =
+        O12.pubsTo c (publishToSubscribers (retainedState s (inboundMsg s i 1 dup retain id topic payload me))
+          (inboundMsg s i 1 dup retain id topic payload me)).2 :=
+  ⟨O12q.step_recv_publish_q1_outputs s hw conn i dup retain id topic payload me hc h,
+   fun c hne => O12q.pubsTo_step_q1 s hw conn i dup retain id topic payload me hc h c hne⟩
+
+/-- **C12 on histories, publishes of QoS 1 — restricted (hence `_partial`).**  `s`: any state reached without schedule
+    ops (`ReachSeq`); `ops`: ANY history without schedule ops (fresh connection numbers), of any length, with arbitrary
+    ops of other clients in between.  If the `i`-th and the `j`-th op (`i < j`) are PUBLISH packets of QoS 1 on
+    connection `p` to the same topic `t`, each accepted in the state before it (`O12q.PubQ1`: the gates `AcceptedQ1`,
+    no shared subscription matching `t`, and the publisher's own release tail cannot write to `c`: `c` is not the
+    publisher's connection, or — the publisher subscribed to its own topic — the publisher is `O12q.Calm`: it holds no
+    deferred message or has no send quota), no registered client has outbound topic aliases in those two states, and the receiver on connection `c` is entitled through a subscription of
+    QoS ≥ 1 with its delivery IMMEDIATE in the state before each op (`O12q.RecvImm`: `notDeferred`, below the in-flight
+    limit, a packet identifier available — the hypothesis of `C12_routing_immediate_any_qos`), then
+    * op `i` writes `c` EXACTLY ONE PUBLISH `m₁`, op `j` exactly one `m₂` — in the publishing step itself;
+    * they are the copies of the two messages (payload, topic, the publisher's id as origin), FIRST transmissions
+      (`dup = false`), both of QoS 1;
+    * on `c`'s stream `m₁` comes before `m₂`: `pubsTo c (flat s ops) = A ++ m₁ :: B ++ m₂ :: C`.
+
+    FULL statement (not proved): the same with outbound topic aliases (`Q1.NoAliases` is a hypothesis of the routing
+    theorem `publishToSubscribers_writes_exact_qos`), with matching shared subscriptions for OTHER receivers, inbound
+    topic aliases and hook modes, and for histories with schedule ops (for those the generic
+    `C12_history_order_of_first_tx` applies once the two singleton facts are known).  A publisher that receives its
+    own messages AND holds a deferred message with send quota left is excluded by `PubQ1.own`: there the op's release
+    tail does write a PUBLISH to `c` — a deferred release, F12.
+    DEFERRED deliveries and RESENDS are out by F12: the property is false there
+    (`C12_deferred_release_counterexample`, `C12_resend_counterexample`). -/
+theorem C12_history_order_qos1_partial (caps : Caps) (s : Server) (hr : ReachSeq caps s) (ops : List Op) (hseq : SeqOps ops)
+    (hf : OpsFresh s ops) (p c i j k₁ k₂ id₁ id₂ : Nat) (t : Str) (d₁ r₁ d₂ r₂ : Bool) (pay₁ pay₂ : Str) (me₁ me₂ : Nat)
+    (hi : ops[i]? = some (.recv p (.publish 1 d₁ r₁ id₁ t pay₁ me₁ none)))
+    (hj : ops[j]? = some (.recv p (.publish 1 d₂ r₂ id₂ t pay₂ me₂ none))) (hij : i < j)
+    (n₁ : Q1.NoAliases (run s (ops.take i))) (n₂ : Q1.NoAliases (run s (ops.take j)))
+    (g₁ : O12q.PubQ1 (run s (ops.take i)) p k₁ c id₁ t) (g₂ : O12q.PubQ1 (run s (ops.take j)) p k₂ c id₂ t)
+    (cid₁ cid₂ : Str) (o₁ o₂ pid₁ pid₂ : Nat)
+    (e₁ : O12q.RecvImm (run s (ops.take i)) (inboundMsg (run s (ops.take i)) k₁ 1 d₁ r₁ id₁ t pay₁ me₁) c cid₁ o₁ pid₁)
+    (e₂ : O12q.RecvImm (run s (ops.take j)) (inboundMsg (run s (ops.take j)) k₂ 1 d₂ r₂ id₂ t pay₂ me₂) c cid₂ o₂ pid₂) :
+    ∃ m₁ m₂ A B C,
+      O12.pubsTo c (step (run s (ops.take i)) (.recv p (.publish 1 d₁ r₁ id₁ t pay₁ me₁ none))).2 = [m₁] ∧
+      O12.pubsTo c (step (run s (ops.take j)) (.recv p (.publish 1 d₂ r₂ id₂ t pay₂ me₂ none))).2 = [m₂] ∧
+      (O12q.FirstTx m₁ pay₁ t (getObj (run s (ops.take i)) k₁).id 1 ∧ m₁.qos = 1) ∧
+      (O12q.FirstTx m₂ pay₂ t (getObj (run s (ops.take j)) k₂).id 1 ∧ m₂.qos = 1) ∧
+      O12.pubsTo c (O12.flat s ops) = A ++ m₁ :: B ++ m₂ :: C :=
+  O12q.history_order_q1 caps s hr ops hseq hf p c i j k₁ k₂ id₁ id₂ t d₁ r₁ d₂ r₂ pay₁ pay₂ me₁ me₂ hi hj hij n₁ n₂ g₁ g₂
+    cid₁ cid₂ o₁ o₂ pid₁ pid₂ e₁ e₂
+
+end Mochi.Broker
+
+/-! ### Non-vacuity: a QoS 1 subscriber without Receive Maximum, two QoS 1 publishes of one client, other ops in between -/
+namespace Mochi.Broker
+open Mochi.Topics
+
+/-- `s` (connection 1, MQTT 3.1.1: Receive Maximum unset, so `notDeferred`) subscribes `a` at QoS 1; `p` (connection 2)
+    publishes `01` (op 3); `q` (connection 3) connects and publishes `09`; `s` acknowledges `01`; `p` publishes `02`
+    (op 7) — all QoS 1 on topic `a` -/
+def h12HistoryQ1 : List Op :=
+  [.connect 1 { ver := 4, id := [115] },
+   .recv 1 (.subscribe 1 0 [{ filter := [97], qos := 1 }]),
+   .connect 2 { ver := 4, id := [112] },
+   .recv 2 (.publish 1 false false 1 [97] [1] 0 none),
+   .connect 3 { ver := 5, id := [113] },
+   .recv 3 (.publish 1 false false 7 [97] [9] 0 none),
+   .recv 1 (.puback 1 0),
+   .recv 2 (.publish 1 false false 2 [97] [2] 0 none)]
+
+theorem h12q_seq : SeqOps h12HistoryQ1 ∧ OpsFresh (init {}) h12HistoryQ1 := by decide
+
+theorem h12q_noAliases : Q1.NoAliases (run (init {}) (h12HistoryQ1.take 3)) ∧
+    Q1.NoAliases (run (init {}) (h12HistoryQ1.take 7)) :=
+  ⟨fun id i h => (by decide : ∀ e ∈ (run (init {}) (h12HistoryQ1.take 3)).clients,
+      (getObj (run (init {}) (h12HistoryQ1.take 3)) e.2).tam = 0) (id, i) h,
+   fun id i h => (by decide : ∀ e ∈ (run (init {}) (h12HistoryQ1.take 7)).clients,
+      (getObj (run (init {}) (h12HistoryQ1.take 7)) e.2).tam = 0) (id, i) h⟩
+
+/-- the hypotheses of `C12_history_order_qos1_partial` hold for `p`'s two publishes (ops 3 and 7, client object 2,
+    identifiers 1 and 2) and the receiver `s` (connection 1) … -/
+theorem h12q_pub3 : O12q.PubQ1 (run (init {}) (h12HistoryQ1.take 3)) 2 2 1 1 [97] :=
+  ⟨by decide, ⟨by decide, by decide, by decide, by decide, by decide, by decide, by decide, by decide, by decide,
+    by decide, by decide⟩, by decide, Or.inr (by decide)⟩
+
+theorem h12q_pub7 : O12q.PubQ1 (run (init {}) (h12HistoryQ1.take 7)) 2 2 1 2 [97] :=
+  ⟨by decide, ⟨by decide, by decide, by decide, by decide, by decide, by decide, by decide, by decide, by decide,
+    by decide, by decide⟩, by decide, Or.inr (by decide)⟩
+
+/-- … `s` (client object 1, id `s`) is the receiver, its delivery immediate both times: no Receive Maximum, no record /
+    the acknowledged record gone, packet identifiers 1 and 3 available … -/
+theorem h12q_recv3 : O12q.RecvImm (run (init {}) (h12HistoryQ1.take 3))
+    (inboundMsg (run (init {}) (h12HistoryQ1.take 3)) 2 1 false false 1 [97] [1] 0) 1 [115] 1 1 :=
+  ⟨by decide, by decide, by decide, by decide, by decide,
+    ⟨{ filter := [97], qos := 1 }, ⟨by decide, by decide⟩, by decide⟩, by decide,
+    fun h => absurd h.1 (by decide), Or.inl (by decide), by decide, by decide⟩
+
+theorem h12q_recv7 : O12q.RecvImm (run (init {}) (h12HistoryQ1.take 7))
+    (inboundMsg (run (init {}) (h12HistoryQ1.take 7)) 2 1 false false 2 [97] [2] 0) 1 [115] 1 3 :=
+  ⟨by decide, by decide, by decide, by decide, by decide,
+    ⟨{ filter := [97], qos := 1 }, ⟨by decide, by decide⟩, by decide⟩, by decide,
+    fun h => absurd h.1 (by decide), Or.inl (by decide), by decide, by decide⟩
+
+/-- … so the theorem applies: `01` is transmitted to `s` before `02`, each exactly once in its publishing op, QoS 1,
+    dup 0 — with `q`'s connect and publish and `s`'s PUBACK in between -/
+theorem h12q_order : ∃ m₁ m₂ A B C,
+    (O12q.FirstTx m₁ [1] [97] [112] 1 ∧ m₁.qos = 1) ∧ (O12q.FirstTx m₂ [2] [97] [112] 1 ∧ m₂.qos = 1) ∧
+    O12.pubsTo 1 (O12.flat (init {}) h12HistoryQ1) = A ++ m₁ :: B ++ m₂ :: C := by
+  obtain ⟨m₁, m₂, A, B, C, _, _, c1, c2, e⟩ := C12_history_order_qos1_partial {} (init {}) ReachSeq.init h12HistoryQ1
+    h12q_seq.1 h12q_seq.2 2 1 3 7 2 2 1 2 [97] false false false false [1] [2] 0 0 rfl rfl (by decide)
+    h12q_noAliases.1 h12q_noAliases.2 h12q_pub3 h12q_pub7 [115] [115] 1 1 1 3 h12q_recv3 h12q_recv7
+  exact ⟨m₁, m₂, A, B, C, c1, c2, e⟩
+
+/-- the conclusion, visible: what `s` (connection 1) is written, in order (origin, payload, QoS, packet id, dup) -/
+example : (O12.pubsTo 1 (O12.flat (init {}) h12HistoryQ1)).map (fun m => (m.origin, m.payload, m.qos, m.id, m.dup)) =
+    [([112], [1], 1, 1, false), ([113], [9], 1, 2, false), ([112], [2], 1, 3, false)] := by decide
+
+end Mochi.Broker
+
+/-! ### Non-vacuity of the case `c` = the publisher's own connection (`PubQ1.own`, left alternative) -/
+namespace Mochi.Broker
+open Mochi.Topics
+
+/-- the publisher receives its own messages: `p` (connection 2, MQTT 5, Receive Maximum 5) subscribes `a` at QoS 1 and
+    publishes `01` (op 2) and `02` (op 4) at QoS 1, a PINGREQ in between -/
+def h12HistoryOwn : List Op :=
+  [.connect 2 { ver := 5, id := [112], rm := some 5 },
+   .recv 2 (.subscribe 1 0 [{ filter := [97], qos := 1 }]),
+   .recv 2 (.publish 1 false false 1 [97] [1] 0 none),
+   .recv 2 .pingreq,
+   .recv 2 (.publish 1 false false 2 [97] [2] 0 none)]
+
+theorem h12o_seq : SeqOps h12HistoryOwn ∧ OpsFresh (init {}) h12HistoryOwn := by decide
+
+theorem h12o_noLocal (n : Nat)
+    (hd : ((assocGet (subscribers (run (init {}) (h12HistoryOwn.take n)).topics [97]).subs [112]).map (·.noLocal)) =
+      some false) :
+    ¬ ∃ sub, MatchingSub (run (init {}) (h12HistoryOwn.take n)).topics [97] [112] sub ∧ sub.noLocal = true := by
+  intro hex
+  have hx := (O12.reach_take (ReachSeq.init (caps := {})) h12HistoryOwn h12o_seq.1 h12o_seq.2 n).inv.1.idx
+  obtain ⟨sub', hg, hn'⟩ := (hasSub_subscribers_idx mergeOr_noLocal _ hx [97] (by decide) (by decide) [112]).mpr hex
+  rw [hg] at hd
+  simp only [Option.map_some] at hd
+  have hn'' : sub'.noLocal = true := hn'
+  rw [hn''] at hd
+  cases hd
+
+theorem h12o_noAliases : Q1.NoAliases (run (init {}) (h12HistoryOwn.take 2)) ∧
+    Q1.NoAliases (run (init {}) (h12HistoryOwn.take 4)) :=
+  ⟨fun id i h => (by decide : ∀ e ∈ (run (init {}) (h12HistoryOwn.take 2)).clients,
+      (getObj (run (init {}) (h12HistoryOwn.take 2)) e.2).tam = 0) (id, i) h,
+   fun id i h => (by decide : ∀ e ∈ (run (init {}) (h12HistoryOwn.take 4)).clients,
+      (getObj (run (init {}) (h12HistoryOwn.take 4)) e.2).tam = 0) (id, i) h⟩
+
+/-- the publisher (client object 1, connection 2 = the receiving connection) holds no deferred message: `Calm` -/
+theorem h12o_pub2 : O12q.PubQ1 (run (init {}) (h12HistoryOwn.take 2)) 2 1 2 1 [97] :=
+  ⟨by decide, ⟨by decide, by decide, by decide, by decide, by decide, by decide, by decide, by decide, by decide,
+    by decide, by decide⟩, by decide, Or.inl (Or.inl (by decide))⟩
+
+theorem h12o_pub4 : O12q.PubQ1 (run (init {}) (h12HistoryOwn.take 4)) 2 1 2 2 [97] :=
+  ⟨by decide, ⟨by decide, by decide, by decide, by decide, by decide, by decide, by decide, by decide, by decide,
+    by decide, by decide⟩, by decide, Or.inl (Or.inl (by decide))⟩
+
+theorem h12o_recv2 : O12q.RecvImm (run (init {}) (h12HistoryOwn.take 2))
+    (inboundMsg (run (init {}) (h12HistoryOwn.take 2)) 1 1 false false 1 [97] [1] 0) 2 [112] 1 1 :=
+  ⟨by decide, by decide, by decide, by decide, by decide,
+    ⟨{ filter := [97], qos := 1 }, ⟨by decide, by decide⟩, by decide⟩, by decide,
+    fun h => h12o_noLocal 2 (by decide) h.2, Or.inr (by decide), by decide, by decide⟩
+
+theorem h12o_recv4 : O12q.RecvImm (run (init {}) (h12HistoryOwn.take 4))
+    (inboundMsg (run (init {}) (h12HistoryOwn.take 4)) 1 1 false false 2 [97] [2] 0) 2 [112] 1 2 :=
+  ⟨by decide, by decide, by decide, by decide, by decide,
+    ⟨{ filter := [97], qos := 1 }, ⟨by decide, by decide⟩, by decide⟩, by decide,
+    fun h => h12o_noLocal 4 (by decide) h.2, Or.inr (by decide), by decide, by decide⟩
+
+/-- the theorem applies with `c` = the publisher's own connection: `01` before `02`, each written once by its op -/
+theorem h12o_order : ∃ m₁ m₂ A B C,
+    (O12q.FirstTx m₁ [1] [97] [112] 1 ∧ m₁.qos = 1) ∧ (O12q.FirstTx m₂ [2] [97] [112] 1 ∧ m₂.qos = 1) ∧
+    O12.pubsTo 2 (O12.flat (init {}) h12HistoryOwn) = A ++ m₁ :: B ++ m₂ :: C := by
+  obtain ⟨m₁, m₂, A, B, C, _, _, c1, c2, e⟩ := C12_history_order_qos1_partial {} (init {}) ReachSeq.init h12HistoryOwn
+    h12o_seq.1 h12o_seq.2 2 2 2 4 1 1 1 2 [97] false false false false [1] [2] 0 0 rfl rfl (by decide)
+    h12o_noAliases.1 h12o_noAliases.2 h12o_pub2 h12o_pub4 [112] [112] 1 1 1 2 h12o_recv2 h12o_recv4
+  exact ⟨m₁, m₂, A, B, C, c1, c2, e⟩
+
+end Mochi.Broker
+
+/-! ### QoS 2: the routing happens at the PUBLISH op (`C08_accepted_qos2_shape`), not at PUBREL -/
+namespace Mochi.Broker
+open Mochi.Topics
+
+/-- **the QoS 2 PUBLISH op, decomposed.**  For an accepted QoS 2 publish (`AcceptedQ2`, `Props/C08.lean`) on the
+    connection of client object `i`, with `fs = pubrecFiled (retainedState s m) i id` (retained store updated, the PUBREC
+    record filed with the publisher) and `m = inboundMsg …`: the op's output is
+    `[PUBREC 0x00 to the publisher] ++ (publishToSubscribers fs m).2 ++ tail`, `tail` — at most two outputs — writing
+    only to the PUBLISHER's own connection; every other connection `c` sees, as PUBLISH packets of the op, exactly those
+    of the ONE routing call. -/
+theorem C12_publish_qos2_op_outputs (s : Server) (conn i : Nat) (dup retain : Bool) (id : Nat)
+    (topic payload : Str) (me : Nat) (hc : assocGet s.connOf conn = some i) (h : AcceptedQ2 s i id topic) :
+    (∃ tail, (step s (.recv conn (.publish 2 dup retain id topic payload me none))).2 =
+        [Out.wrote (getObj s i).conn (.ack (getObj s i).ver 5 id 0)] ++
+          (publishToSubscribers (pubrecFiled (retainedState s (inboundMsg s i 2 dup retain id topic payload me)) i id)
+            (inboundMsg s i 2 dup retain id topic payload me)).2 ++ tail ∧
+      tail.length ≤ 2 ∧ ∀ x ∈ tail, ∃ pk, x = Out.wrote (getObj s i).conn pk) ∧
+    ∀ c, (getObj s i).conn ≠ c →
+      O12.pubsTo c (step s (.recv conn (.publish 2 dup retain id topic payload me none))).2 =
+        O12.pubsTo c (publishToSubscribers
+          (pubrecFiled (retainedState s (inboundMsg s i 2 dup retain id topic payload me)) i id)
+          (inboundMsg s i 2 dup retain id topic payload me)).2 :=
+  ⟨O12q.step_recv_publish_q2_outputs s conn i dup retain id topic payload me hc h,
+   fun c hne => O12q.pubsTo_step_q2 s conn i dup retain id topic payload me hc h c hne⟩
+
+/-- **C12 on histories, publishes of QoS 2 — restricted (hence `_partial`).**  As `C12_history_order_qos1_partial`, for
+    two accepted QoS 2 PUBLISH packets (`O12q.PubQ2`: gates `AcceptedQ2`) of one connection `p` on one topic `t` —
+    whatever happens to the two inbound exchanges in between (PUBREL or not) —: each publishing op (the PUBLISH itself)
+    writes the receiver `c` EXACTLY ONE PUBLISH, the copy of its message, a first transmission (`dup = false`) of
+    QoS 1 or 2 (`O12q.FirstTx … 2`), and `m₁` precedes `m₂` on `c`'s stream.
+    Restrictions and the FULL statement: as for `C12_history_order_qos1_partial`, and additionally `c` must not be the
+    publisher's own connection (`PubQ2.other`): the routing state holds the PUBREC record in the PUBLISHER's in-flight
+    list, so for a publisher receiving its own message the immediacy hypotheses (in-flight limit, next packet
+    identifier) would have to be stated on that state — not done. -/
+theorem C12_history_order_qos2_partial (caps : Caps) (s : Server) (hr : ReachSeq caps s) (ops : List Op) (hseq : SeqOps ops)
+    (hf : OpsFresh s ops) (p c i j k₁ k₂ id₁ id₂ : Nat) (t : Str) (d₁ r₁ d₂ r₂ : Bool) (pay₁ pay₂ : Str) (me₁ me₂ : Nat)
+    (hi : ops[i]? = some (.recv p (.publish 2 d₁ r₁ id₁ t pay₁ me₁ none)))
+    (hj : ops[j]? = some (.recv p (.publish 2 d₂ r₂ id₂ t pay₂ me₂ none))) (hij : i < j)
+    (n₁ : Q1.NoAliases (run s (ops.take i))) (n₂ : Q1.NoAliases (run s (ops.take j)))
+    (g₁ : O12q.PubQ2 (run s (ops.take i)) p k₁ c id₁ t) (g₂ : O12q.PubQ2 (run s (ops.take j)) p k₂ c id₂ t)
+    (cid₁ cid₂ : Str) (o₁ o₂ pid₁ pid₂ : Nat)
+    (e₁ : O12q.RecvImm (run s (ops.take i)) (inboundMsg (run s (ops.take i)) k₁ 2 d₁ r₁ id₁ t pay₁ me₁) c cid₁ o₁ pid₁)
+    (e₂ : O12q.RecvImm (run s (ops.take j)) (inboundMsg (run s (ops.take j)) k₂ 2 d₂ r₂ id₂ t pay₂ me₂) c cid₂ o₂ pid₂) :
+    ∃ m₁ m₂ A B C,
+      O12.pubsTo c (step (run s (ops.take i)) (.recv p (.publish 2 d₁ r₁ id₁ t pay₁ me₁ none))).2 = [m₁] ∧
+      O12.pubsTo c (step (run s (ops.take j)) (.recv p (.publish 2 d₂ r₂ id₂ t pay₂ me₂ none))).2 = [m₂] ∧
+      O12q.FirstTx m₁ pay₁ t (getObj (run s (ops.take i)) k₁).id 2 ∧
+      O12q.FirstTx m₂ pay₂ t (getObj (run s (ops.take j)) k₂).id 2 ∧
+      O12.pubsTo c (O12.flat s ops) = A ++ m₁ :: B ++ m₂ :: C :=
+  O12q.history_order_q2 caps s hr ops hseq hf p c i j k₁ k₂ id₁ id₂ t d₁ r₁ d₂ r₂ pay₁ pay₂ me₁ me₂ hi hj hij n₁ n₂ g₁ g₂
+    cid₁ cid₂ o₁ o₂ pid₁ pid₂ e₁ e₂
+
+/-- `s` (connection 1, MQTT 3.1.1) subscribes `a` at QoS 2; `p` (connection 2) publishes `01` at QoS 2 (op 3) and
+    completes the exchange (PUBREL); `s` answers PUBREC; `p` publishes `02` at QoS 2 (op 6) -/
+def h12HistoryQ2 : List Op :=
+  [.connect 1 { ver := 4, id := [115] },
+   .recv 1 (.subscribe 1 0 [{ filter := [97], qos := 2 }]),
+   .connect 2 { ver := 4, id := [112] },
+   .recv 2 (.publish 2 false false 1 [97] [1] 0 none),
+   .recv 2 (.pubrel 1 0),
+   .recv 1 (.pubrec 1 0),
+   .recv 2 (.publish 2 false false 2 [97] [2] 0 none)]
+
+theorem h12q2_seq : SeqOps h12HistoryQ2 ∧ OpsFresh (init {}) h12HistoryQ2 := by decide
+
+theorem h12q2_noAliases : Q1.NoAliases (run (init {}) (h12HistoryQ2.take 3)) ∧
+    Q1.NoAliases (run (init {}) (h12HistoryQ2.take 6)) :=
+  ⟨fun id i h => (by decide : ∀ e ∈ (run (init {}) (h12HistoryQ2.take 3)).clients,
+      (getObj (run (init {}) (h12HistoryQ2.take 3)) e.2).tam = 0) (id, i) h,
+   fun id i h => (by decide : ∀ e ∈ (run (init {}) (h12HistoryQ2.take 6)).clients,
+      (getObj (run (init {}) (h12HistoryQ2.take 6)) e.2).tam = 0) (id, i) h⟩
+
+theorem h12q2_pub3 : O12q.PubQ2 (run (init {}) (h12HistoryQ2.take 3)) 2 2 1 1 [97] :=
+  ⟨by decide, ⟨by decide, by decide, by decide, by decide, by decide, by decide, by decide, by decide, by decide,
+    by decide, by decide⟩, by decide, by decide⟩
+
+theorem h12q2_pub6 : O12q.PubQ2 (run (init {}) (h12HistoryQ2.take 6)) 2 2 1 2 [97] :=
+  ⟨by decide, ⟨by decide, by decide, by decide, by decide, by decide, by decide, by decide, by decide, by decide,
+    by decide, by decide⟩, by decide, by decide⟩
+
+theorem h12q2_recv3 : O12q.RecvImm (run (init {}) (h12HistoryQ2.take 3))
+    (inboundMsg (run (init {}) (h12HistoryQ2.take 3)) 2 2 false false 1 [97] [1] 0) 1 [115] 1 1 :=
+  ⟨by decide, by decide, by decide, by decide, by decide,
+    ⟨{ filter := [97], qos := 2 }, ⟨by decide, by decide⟩, by decide⟩, by decide,
+    fun h => absurd h.1 (by decide), Or.inl (by decide), by decide, by decide⟩
+
+theorem h12q2_recv6 : O12q.RecvImm (run (init {}) (h12HistoryQ2.take 6))
+    (inboundMsg (run (init {}) (h12HistoryQ2.take 6)) 2 2 false false 2 [97] [2] 0) 1 [115] 1 2 :=
+  ⟨by decide, by decide, by decide, by decide, by decide,
+    ⟨{ filter := [97], qos := 2 }, ⟨by decide, by decide⟩, by decide⟩, by decide,
+    fun h => absurd h.1 (by decide), Or.inl (by decide), by decide, by decide⟩
+
+/-- the theorem applies: `01` before `02` on connection 1, each written once by its PUBLISH op, dup 0 -/
+theorem h12q2_order : ∃ m₁ m₂ A B C, O12q.FirstTx m₁ [1] [97] [112] 2 ∧ O12q.FirstTx m₂ [2] [97] [112] 2 ∧
+    O12.pubsTo 1 (O12.flat (init {}) h12HistoryQ2) = A ++ m₁ :: B ++ m₂ :: C := by
+  obtain ⟨m₁, m₂, A, B, C, _, _, c1, c2, e⟩ := C12_history_order_qos2_partial {} (init {}) ReachSeq.init h12HistoryQ2
+    h12q2_seq.1 h12q2_seq.2 2 1 3 6 2 2 1 2 [97] false false false false [1] [2] 0 0 rfl rfl (by decide)
+    h12q2_noAliases.1 h12q2_noAliases.2 h12q2_pub3 h12q2_pub6 [115] [115] 1 1 1 2 h12q2_recv3 h12q2_recv6
+  exact ⟨m₁, m₂, A, B, C, c1, c2, e⟩
+
+example : (O12.pubsTo 1 (O12.flat (init {}) h12HistoryQ2)).map (fun m => (m.origin, m.payload, m.qos, m.id, m.dup)) =
+    [([112], [1], 2, 1, false), ([112], [2], 2, 2, false)] := by decide
+
+end Mochi.Broker
+
+#print axioms Mochi.Broker.C12_publish_qos1_op_outputs
+#print axioms Mochi.Broker.C12_history_order_qos1_partial
+#print axioms Mochi.Broker.h12q_order
+#print axioms Mochi.Broker.C12_publish_qos2_op_outputs
+#print axioms Mochi.Broker.C12_history_order_qos2_partial
+#print axioms Mochi.Broker.h12q2_order
+#print axioms Mochi.Broker.h12o_order
